@@ -11,7 +11,7 @@ pub fn def() -> PropDef {
     PropDef { id: "C14", level: "exploration", run, case, render }
 }
 fn opts() -> RawGenOpts {
-    RawGenOpts { abstracts: true, pico: false, annotations: true, nets_need_label_purpose: false, nonrect_nets: true, max_cells: 5, closed_polygons: true, abs_only_cells: true, shared_purpose_numbers: false }
+    RawGenOpts { abstracts: true, pico: false, annotations: true, nets_need_label_purpose: false, nonrect_nets: true, max_cells: 5, closed_polygons: true, abs_only_cells: true, shared_purpose_numbers: false, contact_near_bend: false }
 }
 #[derive(Clone, Debug, PartialEq, Eq, PartialOrd, Ord)]
 enum Canon {
@@ -233,7 +233,7 @@ fn gen_message(src: &mut Src) -> (proto::Library, Vec<(i16, i16, i16)>) {
                         cell: Some(proto::Reference { to: Some(proto::reference::To::Local(cells[t].name.clone())) }),
                         origin_location: Some(ppt((src.signed(3000), src.signed(3000)))),
                         reflect_vert: src.bool(),
-                        rotation_clockwise_degrees: 90 * src.below(4) as i32,
+                        rotation_clockwise_degrees: 90 * src.below(4) as i32 - if src.prob(1, 4) { 360 } else { 0 }, // negative: counter-clockwise
                     });
                 }
             }
